@@ -2892,10 +2892,12 @@ class ChannelManager:
         channel.on_credits(credit.credits)
 
     def on_channel_closed(self, channel: ClassicChannel | LeCreditBasedChannel) -> None:
-        if classic_connection_channels := self.channels.get(channel.connection.handle):
-            classic_connection_channels.pop(channel.source_cid, None)
-        elif le_connection_channels := self.le_coc_channels.get(
-            channel.connection.handle
+        if connection_channels := self.channels.get(channel.connection.handle):
+            connection_channels.pop(channel.source_cid, None)
+        if isinstance(channel, LeCreditBasedChannel) and (
+            le_connection_channels := self.le_coc_channels.get(
+                channel.connection.handle
+            )
         ):
             le_connection_channels.pop(channel.destination_cid, None)
 
